@@ -40,11 +40,11 @@ fn setup(ctx: &mut Ctx) {
 
 fn strata(t: Tier) -> Vec<Stratum> {
     vec![
-        st("adversarial-hash", scale(t, 6_000, 400_000, 40)),
-        st("adversarial-symver", scale(t, 3_000, 200_000, 30)),
-        st("adversarial-notes", scale(t, 3_000, 200_000, 20)),
-        st("walker-corpus", scale(t, 10_000, 1_000_000, 20)),
-        st("worst-case-64KiB", scale(t, 16, 200, 0)),
+        st("adversarial-hash", scale(t, 6_000, 60_000, 40)),
+        st("adversarial-symver", scale(t, 3_000, 30_000, 30)),
+        st("adversarial-notes", scale(t, 3_000, 30_000, 20)),
+        st("walker-corpus", scale(t, 10_000, 100_000, 20)),
+        st("worst-case-64KiB", scale(t, 16, 160, 0)),
     ]
 }
 
